@@ -99,6 +99,33 @@ type c15EngCase struct {
 	Claim     string     `json:"claim"`     // node DID the client claims: none | victim | other | unknown
 	Cert      string     `json:"cert"`      // client certificate (TLS modes): victim | other
 	Templates [][]string `json:"templates"` // producing path: participant kinds per CreateTransaction call
+	// Builds[i] says how the Template of Templates[i] is put together from the REAL builder methods (absent: key, private).
+	Builds []c15EngBuild `json:"builds,omitempty"`
+	// PrivOrder: builder calls for the [node, victim] transaction of part (a): key | ts | private in some order (absent: key, private)
+	PrivOrder []string `json:"priv_order,omitempty"`
+}
+
+// c15EngBuild is one chain of Template builder calls. The builder methods are documented as independent setters
+// ("WithX specifies ..."): whatever the order and subset, a template on which WithPrivate(p) was called asks for a
+// transaction private to p.
+type c15EngBuild struct {
+	Order []string `json:"order"`  // calls in order: key (WithAttachKey) | ts (WithTimestamp) | prevs (WithAdditionalPrevs) | private (WithPrivate)
+	Prevs []int    `json:"prevs"`  // additional prevs: indices into the transactions created before (head excluded; reduced modulo)
+	TsAgo int      `json:"ts_ago"` // WithTimestamp(now - TsAgo seconds)
+}
+
+func c15GenEngOrder(t *rapid.T, private bool, allowPrevs bool) []string {
+	ops := []string{"key"}
+	if private {
+		ops = append(ops, "private")
+	}
+	if rapid.IntRange(0, 2).Draw(t, "with-ts") > 0 {
+		ops = append(ops, "ts")
+	}
+	if allowPrevs && rapid.IntRange(0, 2).Draw(t, "with-prevs") > 0 {
+		ops = append(ops, "prevs")
+	}
+	return rapid.Permutation(ops).Draw(t, "order")
 }
 
 func c15GenEngine(t *rapid.T) c15EngCase {
@@ -117,7 +144,13 @@ func c15GenEngine(t *rapid.T) c15EngCase {
 			parts = append(parts, rapid.SampledFrom(kinds).Draw(t, "participant"))
 		}
 		c.Templates = append(c.Templates, parts)
+		b := c15EngBuild{Order: c15GenEngOrder(t, len(parts) > 0, true), TsAgo: rapid.IntRange(1, 3000).Draw(t, "ts-ago")}
+		for j, np := 0, rapid.SampledFrom([]int{0, 1, 1, 2, 2}).Draw(t, "nprevs"); j < np; j++ {
+			b.Prevs = append(b.Prevs, rapid.IntRange(0, 3).Draw(t, "prev"))
+		}
+		c.Builds = append(c.Builds, b)
 	}
+	c.PrivOrder = c15GenEngOrder(t, true, false)
 	return c
 }
 
@@ -171,6 +204,7 @@ type c15EngWorld struct {
 	trustFile string
 	caPool    *x509.CertPool
 	clients   map[string]*tls.Certificate // victim | other
+	kaPriv    map[string]*ecdsa.PrivateKey // DID -> private keyAgreement key of the participants other than the node (reference decryption of PALs)
 }
 
 var (
@@ -198,9 +232,11 @@ func c15EngSetup(t *testing.T) {
 	if _, w.signPub, err = w.keyStore.New(ctx, nutsCrypto.StringNamingFunc(w.signKid)); fail(err) {
 		return
 	}
-	ec := func() crypto.PublicKey {
+	w.kaPriv = map[string]*ecdsa.PrivateKey{}
+	ec := func(id string) crypto.PublicKey {
 		k, err := ecdsa.GenerateKey(elliptic.P256(), rand.Reader)
 		fail(err)
+		w.kaPriv[id] = k
 		return &k.PublicKey
 	}
 	rsaKey, err := rsa.GenerateKey(rand.Reader, 2048)
@@ -224,8 +260,8 @@ func c15EngSetup(t *testing.T) {
 		w.store.docs[id] = doc
 	}
 	mkDoc(c15EngNode, nodeKA, "node.eng.c15.test")
-	mkDoc(c15EngVictim, ec(), c15EngHostV)
-	mkDoc(c15EngOther, ec(), c15EngHostA)
+	mkDoc(c15EngVictim, ec(c15EngVictim), c15EngHostV)
+	mkDoc(c15EngOther, ec(c15EngOther), c15EngHostA)
 	mkDoc(c15EngParticipants["noka"], nil, "noka.eng.c15.test")
 	mkDoc(c15EngParticipants["rsa"], &rsaKey.PublicKey, "rsa.eng.c15.test")
 	w.store.errs[c15EngParticipants["deact"]] = resolver.ErrDeactivated
@@ -402,6 +438,98 @@ func c15EngPayload(i int) []byte {
 
 // ---------------------------------------------------------------------------------------------------------------------
 
+// c15EngOrder completes a builder order: the key must be attached (the signer's key is not published), WithPrivate is
+// called exactly when there are participants.
+func c15EngOrder(order []string, private bool) []string {
+	var out []string
+	seen := map[string]bool{}
+	for _, op := range order {
+		if seen[op] || (op == "private" && !private) {
+			continue
+		}
+		switch op {
+		case "key", "ts", "prevs", "private":
+			seen[op] = true
+			out = append(out, op)
+		}
+	}
+	if !seen["key"] {
+		out = append(out, "key")
+	}
+	if private && !seen["private"] {
+		out = append(out, "private")
+	}
+	return out
+}
+
+// c15EngTemplate puts a Template together through the real builder methods, in the given order.
+func c15EngTemplate(x *h.Ctx, payload []byte, order []string, pal []did.DID, prevs []hash.SHA256Hash, ts time.Time) Template {
+	w := &c15Eng
+	tpl := TransactionTemplate("application/vnd.c15+json", payload, w.signKid)
+	for _, op := range order {
+		switch op {
+		case "key":
+			tpl = tpl.WithAttachKey(w.signPub)
+		case "ts":
+			tpl = tpl.WithTimestamp(ts)
+		case "prevs":
+			tpl = tpl.WithAdditionalPrevs(prevs)
+		case "private":
+			tpl = tpl.WithPrivate(pal)
+		}
+	}
+	x.Class("build:" + strings.Join(order, ">"))
+	if len(pal) > 0 && len(order) > 0 && order[len(order)-1] != "private" {
+		x.Class("build:another-builder-call-after-WithPrivate")
+	}
+	return tpl
+}
+
+// c15EngPALReference decrypts the PAL of a created transaction with the private keys of the requested participants
+// (node: key store; others: kept by the harness) and compares the list with the one that was requested.
+func c15EngPALReference(x *h.Ctx, tx dag.Transaction, want []did.DID, what string) {
+	w := &c15Eng
+	wantSet := map[string]bool{}
+	for _, d := range want {
+		wantSet[d.String()] = true
+	}
+	for p := range wantSet {
+		var plain []byte
+		for _, enc := range tx.PAL() {
+			var out []byte
+			var err error
+			if p == c15EngNode {
+				out, err = w.keyStore.Decrypt(audit.TestContext(), c15EngNode+"#ka", enc)
+			} else if k := w.kaPriv[p]; k != nil {
+				out, err = nutsCrypto.EciesDecrypt(k, enc)
+			} else {
+				err = fmt.Errorf("no key")
+			}
+			if err == nil && len(out) > 0 {
+				plain = out
+				break
+			}
+		}
+		if plain == nil {
+			x.Class("pal:not-readable-with-the-key-of-a-requested-participant")
+			continue
+		}
+		x.Class("pal:decrypted-by-reference")
+		gotSet := map[string]bool{}
+		for _, line := range strings.Split(string(plain), "\n") {
+			gotSet[line] = true
+		}
+		same := len(gotSet) == len(wantSet)
+		for d := range wantSet {
+			same = same && gotSet[d]
+		}
+		if !same {
+			x.Violate("engine:pal-differs-from-requested-participants", "the PAL of the transaction created with %s decrypts (key of %s) to %q", what, p, string(plain))
+			return
+		}
+	}
+}
+
 func c15RunEngine(x *h.Ctx, c c15EngCase) {
 	if len(c.Templates) > 8 {
 		return
@@ -477,12 +605,16 @@ func c15RunEngine(x *h.Ctx, c c15EngCase) {
 	// the private transaction of part (a): for [node, victim]
 	ctx := audit.TestContext()
 	secret := c15EngPayload(0)
-	privTx, err := engine.CreateTransaction(ctx, TransactionTemplate("application/vnd.c15+json", secret, w.signKid).WithAttachKey(w.signPub).
-		WithPrivate([]did.DID{did.MustParseDID(c15EngNode), did.MustParseDID(c15EngVictim)}))
+	caseStart := time.Now()
+	privPAL := []did.DID{did.MustParseDID(c15EngNode), did.MustParseDID(c15EngVictim)}
+	privTx, err := engine.CreateTransaction(ctx, c15EngTemplate(x, secret, c15EngOrder(c.PrivOrder, true), privPAL, nil, caseStart.Add(-time.Hour)))
 	x.NoErr(err, "CreateTransaction for [node, victim]")
 	if len(privTx.PAL()) == 0 {
-		x.Violate("engine:transaction-with-participants-created-without-pal", "CreateTransaction with participants [node, victim] returned a transaction without PAL")
+		x.Violate("engine:transaction-with-participants-created-without-pal", "CreateTransaction with a template built as %v for participants [node, victim] returned a transaction without PAL", c15EngOrder(c.PrivOrder, true))
+	} else {
+		c15EngPALReference(x, privTx, privPAL, "participants [node victim]")
 	}
+	txs := []dag.Transaction{privTx} // everything created so far, in order (the last one is the head)
 
 	// (b) producing path
 	type made struct {
@@ -501,9 +633,30 @@ func c15RunEngine(x *h.Ctx, c c15EngCase) {
 			pal = append(pal, did.MustParseDID(id))
 		}
 		payload := c15EngPayload(i + 1)
-		tpl := TransactionTemplate("application/vnd.c15+json", payload, w.signKid).WithAttachKey(w.signPub)
-		if len(pal) > 0 {
-			tpl = tpl.WithPrivate(pal)
+		var build c15EngBuild
+		if i < len(c.Builds) {
+			build = c.Builds[i]
+		}
+		order := c15EngOrder(build.Order, len(pal) > 0)
+		prevs := []hash.SHA256Hash{}
+		if len(txs) > 1 {
+			for _, pi := range build.Prevs {
+				if pi < 0 {
+					pi = -pi
+				}
+				ref := txs[pi%(len(txs)-1)].Ref() // never the head itself: it is a prev anyway
+				dup := false
+				for _, have := range prevs {
+					dup = dup || have.Equals(ref)
+				}
+				if !dup {
+					prevs = append(prevs, ref)
+				}
+			}
+		}
+		tpl := c15EngTemplate(x, payload, order, pal, prevs, caseStart.Add(-time.Duration(build.TsAgo)*time.Second))
+		if strings.Contains(strings.Join(order, ","), "prevs") {
+			x.Classf("build:additional-prevs-%d", len(prevs))
 		}
 		resolvable := true
 		for _, p := range parts {
@@ -532,9 +685,15 @@ func c15RunEngine(x *h.Ctx, c c15EngCase) {
 			continue
 		}
 		created = append(created, made{tx, payload, parts})
+		txs = append(txs, tx)
 		if len(parts) > 0 && len(tx.PAL()) == 0 {
 			x.Violate("engine:transaction-with-participants-created-without-pal",
-				"CreateTransaction with participants %v returned transaction %s WITHOUT a PAL: it is public and carries the payload meant for the participants", parts, tx.Ref().String())
+				"CreateTransaction with a template built as %v for participants %v returned transaction %s WITHOUT a PAL: it is public and carries the payload meant for the participants", order, parts, tx.Ref().String())
+		} else if len(parts) > 0 {
+			c15EngPALReference(x, tx, pal, fmt.Sprintf("participants %v", parts))
+		}
+		if len(parts) == 0 && len(tx.PAL()) != 0 {
+			x.Class("create:public-template-yielded-pal")
 		}
 		if len(parts) > 0 && len(tx.PAL()) != len(parts) {
 			x.Class("create:pal-entries-differ-from-participants")
